@@ -42,6 +42,11 @@ def corpus():
         "cli mode=users dur=%s conc=2 bodyms=1 maxit=8 failevery=3 failkind=panicnilptr logfmt=json expectlimit=1" % hx("300ms"),
         "cli mode=users dur=%s conc=1 bodyms=0 maxit=2600 failevery=1 failkind=panicstr expectlimit=1" % hx("20s"),      # C07l: the 2600th panic on a worker is a failure like the first
         "cli mode=users dur=%s conc=2 bodyms=0 maxit=4200 failevery=2 failkind=panicint expectlimit=1" % hx("20s"),
+        "run prop=C07 mode=users dur=400 conc=1 body=1 maxit=6 failevery=2 failkind=foreignfailnow",                              # D25: FailNow on the setup handle, from an iteration
+        "run prop=C07 mode=constant rate=3/100ms dist=none dur=500 conc=2 body=2 failevery=3 failkind=foreignfailnow",
+        "cli mode=users dur=%s conc=1 bodyms=1 maxit=4 failevery=2 failkind=paniccyclic logfmt=text expectlimit=1" % hx("300ms"),   # D26 (known finding): a panic value that contains itself, text log format
+        "cli mode=users dur=%s conc=1 bodyms=1 maxit=4 failevery=2 failkind=paniccyclic logfmt=json expectlimit=1" % hx("300ms"),
+        "cli mode=users dur=%s conc=1 bodyms=1 maxit=6 failevery=2 failkind=panicstr logfmt=text expectlimit=1" % hx("300ms"),
         "cli mode=users dur=%s conc=2 bodyms=5 failevery=2 failkind=panicerr logfile=bad" % hx("200ms"),
         "cli mode=users dur=%s conc=2 bodyms=5 failevery=3 failkind=errorf logfile=bad" % hx("200ms"),
         "cli mode=users dur=%s conc=1 bodyms=2 maxit=8 failevery=2 failkind=nilmap combine=1 expectlimit=1" % hx("300ms"),
@@ -117,3 +122,11 @@ MANIFEST = {
  "text": "For every body program the reported outcome is 'failed' iff its executed part marks failure or panics (C07_classified, C07_any_failure_reported, C07_pass_reported, C07_stop_marks), independent of the handle's previous state and of what cleanups do (C07_independent), every iteration starts from a clean handle (C07_contained), and over a whole per-worker history iteration j is reported by body j alone (C07_history). Structural induction over action lists. Tie: generated per-worker behaviour sequences with real panics and runtime errors through the real handle. Regenerated: handlePanic marks the handle failed for every recovered value except nil and the FailNow sentinel itself, compared by identity (t_handlePanic_refines); a panicking body is recovered inside Run's inner block and everything after it happens as for a returning body (active_Run_window).",
  "note": "Alphabet of failure events as stated in the property (Goexit excluded). Process/worker survival is observed by the harness (the worker continues to take iterations; a crash of the process is reported as crash:process).",
  "technique": "Lean 4 theorems by structural induction over scenario programs + behaviour-sequence correspondence with the real handle; refinement of the regenerated panic handler (MiniGo)"}
+
+
+def signature(rec):
+    """known finding D26: a panic value that contains itself kills the process under the text log format"""
+    c = rec["case"]
+    if c.startswith("cli ") and " failkind=paniccyclic" in c and " logfmt=text" in c and rec.get("impl", "").startswith("crash"):
+        return "C07:cyclic-panic-value:text-log"
+    return c
